@@ -1218,6 +1218,35 @@ func c02Text(r *core.Report) {
 			core.Fail("no caching ReadFromURIFunc wrapper found in openapi3")
 		}
 	})
+	r.RunRule("C02.fragment", "every reference records its target the same way: in Loader.resolveRefPath, what is stored into the Fragment of the location of a same-document reference is not the reference text itself (which starts with '#'): resolveComponent records the fragment without it, and a cycle-closing reference, whose location comes from resolveRefPath, would otherwise get `doc#%23/components/...` where every other reference to the same object has `doc#/components/...`", 1, func() {
+		fd := p.DeclOf("openapi3", "Loader.resolveRefPath")
+		refObj := core.ParamObj(info, fd, "ref")
+		n := 0
+		ast.Inspect(fd.Body, func(nd ast.Node) bool {
+			as, ok := nd.(*ast.AssignStmt)
+			if !ok {
+				return true
+			}
+			for i, l := range as.Lhs {
+				sel, ok := ast.Unparen(l).(*ast.SelectorExpr)
+				if !ok || sel.Sel.Name != "Fragment" || i >= len(as.Rhs) && len(as.Rhs) != 1 {
+					continue
+				}
+				rhs := as.Rhs[0]
+				if i < len(as.Rhs) {
+					rhs = as.Rhs[i]
+				}
+				n++
+				key := fmt.Sprintf("fragment:resolveRefPath#%d", n)
+				id, isID := ast.Unparen(rhs).(*ast.Ident)
+				r.Check(!(isID && refObj != nil && info.ObjectOf(id) == refObj), key, p.Pos(as.Pos()), "the fragment is taken out of the reference, not the reference itself", "resolveRefPath stores the whole reference text, '#' included, as the fragment of the location: the RefPath of a cycle-closing reference then differs from that of every other reference to the same object")
+			}
+			return true
+		})
+		if n == 0 {
+			core.Fail("resolveRefPath no longer assigns a Fragment")
+		}
+	})
 	r.RunRule("C02.doccache", "the document cache designates documents by their whole location and holds loaded documents only: in the Loader method that registers a document in the map of visited documents, the key of every access to that map is the String() of the function's *url.URL parameter (a key rebuilt from some components makes two locations share one document), and every return of an error that comes after the registration is preceded in its block by a delete of that key (a document that failed to parse or to resolve would otherwise be handed out, half built and with a nil error, by the next load of the location)", 3, func() {
 		docT := p.NamedType("openapi3", "T")
 		n := 0
